@@ -92,12 +92,14 @@ READ_NOTE = ('Trusted: Lean kernel (axioms propext, Classical.choice, Quot.sound
 
 CLAIMED.update({
     'C04': {
-        'text': ('Lean 4, string level: for every string of the linear grammar {[#n0] b [#n1] b …} (any length, alphanumeric '
-                 'names, every bond symbol) reading returns exactly the denoted graph (numbering, names, default annotation '
-                 'values, orders) — tokeniser lemma + per-node decoding lemma + state-machine invariant. Branches, ring bonds, '
-                 'annotations inside: per-node lemmas, ring parity law, documented examples by kernel evaluation; their '
-                 'unbounded statement is validated by exhaustive (<=4 nodes) and random correspondence of the faithful model '
-                 'with the code plus an independent denotation oracle (partial).'),
+        'text': ('Lean 4, string level: for every string of the branching grammar { node (bond? "("? node ")"*)* } — any length, '
+                 'any nesting depth, branches opening directly after closings, bond symbols in front of parentheses and after '
+                 'them, alphanumeric names — reading returns exactly the graph the stack-machine denotation gives (numbering, '
+                 'names, default annotation values, orders): C04_read_tree (tokeniser lemma + per-node decoding lemma with k '
+                 'closing parentheses + state-machine simulation); C04_read_chain is the parenthesis-free instance. Ring bonds, '
+                 '%nn markers and annotations inside nodes: ring parity law, documented examples by kernel evaluation; their '
+                 'unbounded statement is validated by correspondence of the faithful model with the code on grammar ASTs plus an '
+                 'independent denotation oracle (partial).'),
         'note': READ_NOTE,
         'design': '§7 C04',
     },
